@@ -470,3 +470,104 @@ Proof.
     rewrite E1. rewrite <- !app_assoc. reflexivity.
 Qed.
 
+
+(* ---- headers and blocks ---- *)
+Lemma wrap32_wrapu32 v : INT32_MIN <= v <= INT32_MAX -> wrap32 (wrapu32 v) = v.
+Proof.
+  unfold INT32_MIN, INT32_MAX, wrap32, wraps, wrapu32, wrapu. intros H.
+  change (2 ^ 32) with 4294967296. change (2 ^ (32 - 1)) with 2147483648.
+  rewrite Z.mod_mod by lia.
+  destruct (Z_lt_le_dec v 0) as [Hn|Hp].
+  - assert (E : v mod 4294967296 = v + 4294967296).
+    { symmetry. apply Z.mod_unique with (q := -1); lia. }
+    rewrite E. destruct (_ <? _) eqn:C; lia.
+  - rewrite Z.mod_small by lia. destruct (_ <? _) eqn:C; lia.
+Qed.
+
+Lemma wrapu32_wrap32 v : 0 <= v < 2 ^ 32 -> wrapu32 (wrap32 v) = v.
+Proof.
+  unfold wrap32, wraps, wrapu32, wrapu.
+  change (2 ^ 32) with 4294967296. change (2 ^ (32 - 1)) with 2147483648. intros H.
+  rewrite (Z.mod_small v) by lia.
+  destruct (v <? 2147483648) eqn:C.
+  - rewrite Z.mod_small by lia. lia.
+  - symmetry. apply Z.mod_unique with (q := -1); lia.
+Qed.
+
+Lemma header_roundtrip h rest : header_wf h -> unser_header (ser_header h ++ rest) = Ok h rest.
+Proof.
+  intros [Hv [Lp [Lm [Ht [Hb Hn]]]]]. unfold UINT32_MAX in *.
+  unfold unser_header, ser_header. rewrite <- !app_assoc.
+  rewrite read_le_write. cbn [bind].
+  rewrite <- Lp at 1. rewrite read_bytes_app. cbn [bind].
+  rewrite <- Lm at 1. rewrite read_bytes_app. cbn [bind].
+  rewrite !read_le_write. cbn [bind]. rewrite !read_le_write. cbn [bind]. rewrite !read_le_write. cbn [bind].
+  change (wrapu (8 * Z.of_nat 4)) with wrapu32.
+  rewrite wrap32_wrapu32 by exact Hv.
+  rewrite !wrapu32_id by (unfold UINT32_MAX; lia). destruct h; reflexivity.
+Qed.
+
+Lemma header_length h : length (h_prev h) = 32%nat -> length (h_merkle h) = 32%nat -> length (ser_header h) = 80%nat.
+Proof.
+  intros Lp Lm. unfold ser_header, write_le. rewrite !app_length, !le_bytes_length, Lp, Lm. reflexivity.
+Qed.
+
+Lemma header_canonical s h r : bytes_ok s -> unser_header s = Ok h r ->
+  s = ser_header h ++ r /\ bytes_ok r /\ length (ser_header h) = 80%nat.
+Proof.
+  intros Hs H. unfold unser_header in H.
+  destruct (read_le 4 s) as [v s1|e] eqn:R1; [|discriminate]. cbn [bind] in H.
+  apply read_le_inv in R1; [|exact Hs]. destruct R1 as [Es Hv]. rewrite pow_8_4 in Hv.
+  rewrite Es in Hs. apply bytes_ok_app in Hs. destruct Hs as [_ Hs1].
+  destruct (read_bytes 32 s1) as [p s2|e] eqn:R2; [|discriminate]. cbn [bind] in H.
+  apply read_bytes_inv in R2. destruct R2 as [Es1 Lp].
+  rewrite Es1 in Hs1. apply bytes_ok_app in Hs1. destruct Hs1 as [_ Hs2].
+  destruct (read_bytes 32 s2) as [m s3|e] eqn:R3; [|discriminate]. cbn [bind] in H.
+  apply read_bytes_inv in R3. destruct R3 as [Es2 Lm].
+  rewrite Es2 in Hs2. apply bytes_ok_app in Hs2. destruct Hs2 as [_ Hs3].
+  destruct (read_le 4 s3) as [t s4|e] eqn:R4; [|discriminate]. cbn [bind] in H.
+  apply read_le_inv in R4; [|exact Hs3]. destruct R4 as [Es3 _].
+  rewrite Es3 in Hs3. apply bytes_ok_app in Hs3. destruct Hs3 as [_ Hs4].
+  destruct (read_le 4 s4) as [b s5|e] eqn:R5; [|discriminate]. cbn [bind] in H.
+  apply read_le_inv in R5; [|exact Hs4]. destruct R5 as [Es4 _].
+  rewrite Es4 in Hs4. apply bytes_ok_app in Hs4. destruct Hs4 as [_ Hs5].
+  destruct (read_le 4 s5) as [n s6|e] eqn:R6; [|discriminate]. cbn [bind] in H.
+  apply read_le_inv in R6; [|exact Hs5]. destruct R6 as [Es5 _].
+  rewrite Es5 in Hs5. apply bytes_ok_app in Hs5. destruct Hs5 as [_ Hs6].
+  inversion H; subst h r. clear H.
+  split; [|split; [exact Hs6|apply header_length; assumption]].
+  unfold ser_header. cbn [h_version h_prev h_merkle h_time h_bits h_nonce]. rewrite <- !app_assoc.
+  rewrite <- Es5, <- Es4, <- Es3, <- Es2, <- Es1.
+  unfold write_le at 1. change (wrapu (8 * Z.of_nat 4)) with wrapu32. rewrite wrapu32_wrap32 by lia.
+  rewrite Es. unfold write_le. change (wrapu (8 * Z.of_nat 4)) with wrapu32.
+  rewrite wrapu32_id by (unfold UINT32_MAX; lia). reflexivity.
+Qed.
+
+Lemma ser_tx_nonempty aw t : (1 <= length (ser_tx aw t))%nat.
+Proof. unfold ser_tx, write_le. rewrite app_length, le_bytes_length. lia. Qed.
+
+(* BLOCK ROUND TRIP (witness serialization, as stored on disk and sent over the network) *)
+Lemma block_roundtrip b rest : header_wf (b_header b) -> Z.of_nat (length (b_vtx b)) <= MAX_SIZE ->
+  Forall (fun t => tx_wf t /\ (tx_vin t <> [] \/ tx_vout t = [])) (b_vtx b) ->
+  unser_block true (ser_block true b ++ rest) = Ok b rest.
+Proof.
+  intros Hh L F. unfold unser_block, ser_block. rewrite <- app_assoc.
+  rewrite header_roundtrip by exact Hh. cbn [bind].
+  rewrite Forall_forall in F.
+  rewrite vector_roundtrip; [destruct b; reflexivity | exact L | intros x _; apply ser_tx_nonempty |].
+  intros x r Hx. destruct (F x Hx) as [W S]. apply tx_roundtrip_witness; assumption.
+Qed.
+
+Lemma block_canonical aw s b rest : bytes_ok s -> unser_block aw s = Ok b rest ->
+  s = ser_block aw b ++ rest.
+Proof.
+  intros Hs H. unfold unser_block in H.
+  destruct (unser_header s) as [h s1|e] eqn:R1; [|discriminate]. cbn [bind] in H.
+  destruct (header_canonical s h s1 Hs R1) as [Es [Hs1 _]].
+  destruct (unser_vector (unser_tx aw) s1) as [vtx s2|e] eqn:R2; [|discriminate]. cbn [bind] in H.
+  assert (TC : forall s0 x r0, bytes_ok s0 -> unser_tx aw s0 = Ok x r0 -> s0 = ser_tx aw x ++ r0 /\ bytes_ok r0 /\ True).
+  { intros s0 x r0 Hs0 H0. pose proof (tx_canonical aw s0 x r0 Hs0 H0) as C. split; [exact C|]. split; [|exact I].
+    rewrite C in Hs0. apply bytes_ok_app in Hs0. tauto. }
+  destruct (vector_canonical (ser_tx aw) (unser_tx aw) (fun _ => True) TC s1 vtx s2 Hs1 R2) as [Es1 _].
+  inversion H; subst b rest. unfold ser_block. cbn [b_header b_vtx]. rewrite <- app_assoc, <- Es1. exact Es.
+Qed.
